@@ -118,4 +118,59 @@ theorem cut_step (cfg : Cfg) (s s' : St) (e : Ev) (h : accept cfg s e = some s')
       exact h0 (by rw [← this.1]; exact hc)
     | false => simp [St.before, hw, St.calm]
 
+/-- a crash-damage event is accepted only while the mode flag is set -/
+theorem damage_needs_crashed (cfg : Cfg) (s s' : St) (e : Ev) (h : accept cfg s e = some s') (hd : e.isDamage = true) :
+    s.crashed = true := by
+  cases e
+  case crashMarks m c marks =>
+    simp only [accept, St.before, Ev.inCrashWindow, if_true, acceptCore] at h
+    split at h
+    · cases h
+    · split at h
+      · rename_i hg; exact hg.1
+      · cases h
+  case crashBounce m content =>
+    simp only [accept, St.before, Ev.inCrashWindow, if_true, acceptCore] at h
+    split at h
+    · rename_i hg; exact hg.1
+    · cases h
+  case crashTodoFiles m =>
+    simp only [accept, St.before, Ev.inCrashWindow, if_true, acceptCore] at h
+    split at h
+    · rename_i hg; exact hg.1
+    · cases h
+  all_goals simp [Ev.isDamage] at hd
+
+theorem acceptAll_snoc (cfg : Cfg) : ∀ (evs : List Ev) (s0 s : St) (e : Ev), acceptAll cfg s0 (evs ++ [e]) = some s →
+    ∃ s1, acceptAll cfg s0 evs = some s1 ∧ accept cfg s1 e = some s
+  | [], s0, s, e, h => by
+    simp only [List.nil_append, acceptAll] at h
+    cases h1 : accept cfg s0 e with
+    | none => simp [h1] at h
+    | some s2 => simp only [h1] at h; cases h; exact ⟨s0, rfl, h1⟩
+  | e0 :: es, s0, s, e, h => by
+    simp only [List.cons_append, acceptAll] at h ⊢
+    cases h1 : accept cfg s0 e0 with
+    | none => simp [h1] at h
+    | some s2 => simp only [h1] at h ⊢; exact acceptAll_snoc cfg es s2 s e h
+
+/-- if the mode flag is set at the end of an accepted sequence, the sequence ends with a crash followed by window events only
+(or the flag was set at the start and there were window events only) -/
+theorem window_trace (cfg : Cfg) : ∀ (evs : List Ev) (s0 s : St), acceptAll cfg s0 evs = some s → s.crashed = true →
+    (s0.crashed = true ∧ evs.all Ev.inCrashWindow = true) ∨
+    ∃ pre post, evs = pre ++ Ev.restart :: post ∧ post.all Ev.inCrashWindow = true
+  | [], s0, s, h, hc => by
+    simp only [acceptAll] at h; cases h; exact Or.inl ⟨hc, rfl⟩
+  | e :: es, s0, s, h, hc => by
+    simp only [acceptAll] at h
+    cases h1 : accept cfg s0 e with
+    | none => simp [h1] at h
+    | some s1 =>
+      simp only [h1] at h
+      rcases window_trace cfg es s1 s h hc with ⟨hc1, hall⟩ | ⟨pre, post, he, hall⟩
+      · rcases crashed_step cfg s0 s1 e h1 hc1 with rfl | ⟨hw, hc0⟩
+        · exact Or.inr ⟨[], es, rfl, hall⟩
+        · exact Or.inl ⟨hc0, by simp [hw, hall]⟩
+      · exact Or.inr ⟨e :: pre, post, by simp [he], hall⟩
+
 end Nq.Lemmas.DS
